@@ -117,11 +117,18 @@ func runPlot(t *simrt.Tape, keep bool) simrt.Outcome {
 		sizes = append(sizes, n)
 		ts := base.Add(time.Duration(t.Choose(1000)) * time.Millisecond)
 		first := ts
-		errMode, errFrom := t.Choose(4), t.Choose(n+1) // 0, 3: errors sprinkled at random
+		errMode, errFrom := t.Choose(5), t.Choose(n+1) // 0, 3: errors sprinkled at random
 		soak := t.Prob(1, 6)                           // a soak test: minutes between requests, days in total
+		longSoak := errMode == 4 && t.Prob(1, 2)
+		if longSoak {
+			// hundreds of requests minutes apart, only the first and the last of them failing: two neighbouring points
+			// of one series lie weeks apart although no two requests do
+			n = 250 + t.Choose(500)
+			sizes[len(sizes)-1] = n
+		}
 		for i := 0; i < n; i++ {
 			gapKind := t.Choose(8)
-			if soak && t.Prob(1, 2) {
+			if (soak && t.Prob(1, 2)) || longSoak {
 				gapKind = 8
 			}
 			switch gapKind {
@@ -151,6 +158,8 @@ func runPlot(t *simrt.Tape, keep bool) simrt.Outcome {
 				failed = i >= errFrom
 			case 2: // a bad start: the OK series starts late
 				failed = i < errFrom
+			case 4: // the first and the last request only
+				failed = i == 0 || i == n-1
 			}
 			if failed {
 				res.Code, res.Error = 500, "500 Internal Server Error"
